@@ -421,26 +421,32 @@ def innerHeaderBytes (c : Config) (t : Tape) (atts : List (UInt8 × Bytes)) (att
   let idKey := tlv 1 (toLe32 (innerId c.inner)) ++ tlv 2 t.innerKey
   (if attachmentsFirst then attachmentFields atts ++ idKey else idKey ++ attachmentFields atts) ++ tlv 0 []
 
-/-- a KDBX4 file as a conforming writer lays it out; `none` when the cipher refuses the key/IV -/
+/-- the KDF step of a writer: `none` when Argon2 refuses the parameters -/
+def transformedKey (P : Prims) (k : KdfConfig) (seed composite : Bytes) : Option Bytes :=
+  match k with
+  | .aes rounds => some (P.aesKdf seed rounds composite)
+  | .argon2 id iterations memory parallelism version =>
+    P.argon2 id version memory iterations parallelism seed composite
+
+/-- what is encrypted: the (possibly compressed) inner header followed by the XML document -/
+def plainPayload (P : Prims) (c : Config) (t : Tape) (atts : List (UInt8 × Bytes)) (first : Bool) (xml : Bytes) : Bytes :=
+  if c.compression then P.gzip (innerHeaderBytes c t atts first ++ xml) else innerHeaderBytes c t atts first ++ xml
+
+/-- header ‖ SHA-256 ‖ header HMAC ‖ block stream, for a transformed key `tk` and ciphertext `ct` -/
+def assemble (P : Prims) (c : Config) (t : Tape) (l : Layout) (tk ct : Bytes) : Bytes :=
+  outerHeaderBytes c t l ++ P.sha256 (outerHeaderBytes c t l)
+    ++ P.hmac256 (blockKey P (P.sha512 (t.masterSeed ++ tk ++ [1])) u64Max) (outerHeaderBytes c t l)
+    ++ writeBlocksFrom P (P.sha512 (t.masterSeed ++ tk ++ [1])) 0 (l.blocks ct)
+
+/-- a KDBX4 file as a conforming writer lays it out; `none` when the KDF or the cipher refuses its parameters -/
 def build (P : Prims) (c : Config) (t : Tape) (l : Layout) (atts : List (UInt8 × Bytes)) (xml composite : Bytes) :
     Option Bytes :=
-  let header := outerHeaderBytes c t l
-  let tk := match c.kdf with
-    | .aes rounds => some (P.aesKdf t.kdfSeed rounds composite)
-    | .argon2 id iterations memory parallelism version =>
-      P.argon2 id version memory iterations parallelism t.kdfSeed composite
-  match tk with
+  match transformedKey P c.kdf t.kdfSeed composite with
   | none => none
   | some tk =>
-    let masterKey := P.sha256 (t.masterSeed ++ tk)
-    let hmacKey := P.sha512 (t.masterSeed ++ tk ++ [1])
-    let payload := innerHeaderBytes c t atts l.attachmentsFirst ++ xml
-    let compressed := if c.compression then P.gzip payload else payload
-    match P.encO c.outer masterKey t.iv compressed with
+    match P.encO c.outer (P.sha256 (t.masterSeed ++ tk)) t.iv (plainPayload P c t atts l.attachmentsFirst xml) with
     | none => none
-    | some ct =>
-      some (header ++ P.sha256 header ++ P.hmac256 (blockKey P hmacKey u64Max) header
-            ++ writeBlocksFrom P hmacKey 0 (l.blocks ct))
+    | some ct => some (assemble P c t l tk ct)
 
 /-- the layout `dump_kdbx4` uses: fields 2, 3, 7, 4, 11; one data block; id, key, attachments -/
 def libraryLayout (vdOrder : List (UInt8 × Bytes × Bytes) → List (UInt8 × Bytes × Bytes)) : Layout :=
@@ -452,20 +458,14 @@ def saveSegments (P : Prims) (c : Config) (rnd : Bytes)
     (atts : List (UInt8 × Bytes)) (xml composite : Bytes) : Option (List Bytes) :=
   let t := takeTape c rnd
   let l := libraryLayout vdOrder
-  let header := outerHeaderBytes c t l
-  let tk := match c.kdf with
-    | .aes rounds => some (P.aesKdf t.kdfSeed rounds composite)
-    | .argon2 id iterations memory parallelism version =>
-      P.argon2 id version memory iterations parallelism t.kdfSeed composite
-  match tk with
+  match transformedKey P c.kdf t.kdfSeed composite with
   | none => none
   | some tk =>
-    let masterKey := P.sha256 (t.masterSeed ++ tk)
-    let hmacKey := P.sha512 (t.masterSeed ++ tk ++ [1])
-    let payload := innerHeaderBytes c t atts false ++ xml
-    let compressed := if c.compression then P.gzip payload else payload
-    match P.encO c.outer masterKey t.iv compressed with
+    match P.encO c.outer (P.sha256 (t.masterSeed ++ tk)) t.iv (plainPayload P c t atts false xml) with
     | none => none
-    | some ct => some [header, P.sha256 header, P.hmac256 (blockKey P hmacKey u64Max) header, writeBlocks P hmacKey ct]
+    | some ct =>
+      some [outerHeaderBytes c t l, P.sha256 (outerHeaderBytes c t l),
+            P.hmac256 (blockKey P (P.sha512 (t.masterSeed ++ tk ++ [1])) u64Max) (outerHeaderBytes c t l),
+            writeBlocks P (P.sha512 (t.masterSeed ++ tk ++ [1])) ct]
 
 end Kp.Fmt
